@@ -455,6 +455,10 @@ where
                 // indicate that the message successfully authenticated
                 // with that key.
                 context.tsig_key = Some(tsig_rr.key_name().to_owned());
+            } else {
+                // As in the answer and authority sections, we skip over
+                // RRs that we're not concerned with here.
+                peek_rr.skip();
             }
         }
 
